@@ -41,6 +41,13 @@ def run(ctx: RuleContext):
     ctx.sub(check_slice_agreement, ctx)
     ctx.sub(check_bind_if_absent, ctx)
     ctx.sub(check_rank_test, ctx)
+    # C01.7: the "only look at the array type" mode (set while a PyTree is being flattened) makes every array
+    # check answer after the array-type test alone; it must never outlive the flatten that set it -- otherwise
+    # every later check on the thread is true regardless of dtype and shape (flag typestate of C12.1 / C08.7,
+    # flatten flag only)
+    from ._flags import run_flag_typestate
+
+    ctx.reuse("C01.7", run_flag_typestate, ctx, "C01.7", only_attr_of=lambda fl: not fl.guarded_setters and not fl.raising_getters)
 
 
 def _kind_of(e):
@@ -174,6 +181,25 @@ def check_axis_table(ctx):
                 lookvars.add(a.targets[0].id)
             if isinstance(a.value, ast.Call) and isinstance(a.value.func, ast.Attribute) and a.value.func.attr == "get" and norm(a.value.func.value) == memo:
                 lookvars.add("!get:" + a.targets[0].id)
+    # `x = memo.get(key, SENTINEL)` / `(x := memo.get(key, SENTINEL)) is SENTINEL`: absence is told apart from
+    # every stored value when the default is a dedicated sentinel compared by identity
+    sentinel_gets = {}
+    for a in ast.walk(lp):
+        tgt, val = None, None
+        if isinstance(a, ast.NamedExpr) and isinstance(a.target, ast.Name):
+            tgt, val = a.target.id, a.value
+        elif isinstance(a, ast.Assign) and len(a.targets) == 1 and isinstance(a.targets[0], ast.Name):
+            tgt, val = a.targets[0].id, a.value
+        if tgt and isinstance(val, ast.Call) and isinstance(val.func, ast.Attribute) and val.func.attr == "get" and norm(val.func.value) == memo \
+                and len(val.args) == 2 and isinstance(val.args[1], ast.Name):
+            b_ = m.resolve_name(f, val.args[1].id)
+            if b_.kind == "modvar":
+                vals_ = b_.target[0].assigns.get(b_.target[1], [])
+                # a dedicated identity sentinel: `object()` or an instance of a class of the package
+                if len(vals_) == 1 and isinstance(vals_[0], ast.Call) and (norm(vals_[0].func) == "object" or m.instance_class(b_.target[0], vals_[0]) is not None):
+                    sentinel_gets[tgt] = val.args[1].id
+                    lookvars.discard("!get:" + tgt)
+                    lookvars.add(tgt)
     if any(v.startswith("!get:") for v in lookvars):
         bad_get = [x for x in ast.walk(lp) if isinstance(x, ast.Call) and isinstance(x.func, ast.Attribute) and x.func.attr == "get" and norm(x.func.value) == memo][0]
         ctx.bad("C01.5", f, bad_get, "a named axis is looked up with `.get()` and the result tested for falsiness / None: a name bound to size 0 is treated as unbound "
@@ -213,6 +239,10 @@ def check_axis_table(ctx):
                     return "unknown-compare"
                 if isinstance(op, (ast.In, ast.NotIn)) and rn == memo:
                     return bound if isinstance(op, ast.In) else not bound
+                if isinstance(op, (ast.Is, ast.IsNot)):
+                    lv = l.target.id if isinstance(l, ast.NamedExpr) and isinstance(l.target, ast.Name) else (l.id if isinstance(l, ast.Name) else None)
+                    if lv in sentinel_gets and rn == sentinel_gets[lv]:
+                        return (not bound) if isinstance(op, ast.Is) else bound
             if isinstance(e, ast.Call) and norm(e.func) == "isinstance" and norm(e.args[0]) == dvar and norm(e.args[1]) in ("_FixedDim", "_SymbolicDim", "_NamedDim"):
                 return {"_FixedDim": "fixed", "_SymbolicDim": "symbolic", "_NamedDim": "named"}[norm(e.args[1])] == kind
             if isinstance(e, ast.Attribute) and norm(e.value) == dvar:
